@@ -141,3 +141,69 @@ register("C09", "fault_enumeration",
           SingleRandomPart("C09", "ATOM", "atom-random", weight=1.0),
           ConcPart("C09", "obj", name="atom-conc-obj", atom=True, weight=1.0),
           ConcPart("C09", "meta", name="atom-conc-meta", atom=True, weight=0.7)])
+
+
+def _c17_hooks(prog):
+    from . import hooks as H
+    return {"raw": H.hook_raw}
+
+
+def _c14_hooks(prog):
+    from . import hooks as H
+    return {"reopen": H.hook_reopen}
+
+
+def _c19_hooks(prog):
+    from . import hooks as H
+    return {"converge": H.hook_converge}
+
+
+def _c14_prologue(eng):
+    from . import hooks as H
+    H.c14_prologue(eng)
+
+
+register("C17", "exploration",
+         SEQ_RULE + "; rejected calls are drawn from a grammar of invalid values for every parameter of every public "
+         "method (one bad parameter and pairs) and inserted into histories; each is executed between two full "
+         "directory snapshots (paths, content hashes, directories) and must raise a documented class; read-only "
+         "calls (retrieve_object / retrieve_metadata / get_hex_digest) likewise between snapshots; focus = a rejected call",
+         COMMON_ASSUME + ["values whose treatment is not documented (format id '', inner spaces in format ids) are not generated",
+                          "for a pair of bad parameters either member's documented class is accepted"],
+         30, 420,
+         [SeqPart("C17", focus=["rejected-call"], hooks=_c17_hooks, ro_snapshot=True)])
+
+register("C14", "exploration",
+         SEQ_RULE + "; histories contain reopen(cfg') operations: (creation cfg, history, reopening cfg) triples over "
+         "depth 1-5, width 1-4, five algorithms + unsupported names/spellings, YAML-hostile namespaces, ints as "
+         "strings, missing / None / extra keys, and the fault 'configuration file lost'; refused opens are executed "
+         "between two full directory snapshots and must issue no mutating seam event; accepted opens continue the "
+         "model conformance on the new instance; prologue: creating a store with an unsupported algorithm creates "
+         "nothing; focus = a reopen operation",
+         COMMON_ASSUME + ["integer-like floats, depth 0 and depth*width >= digest length are outside the quantifier"],
+         30, 420,
+         [SeqPart("C14", focus=["reopen:accept", "reopen:reject"], hooks=_c14_hooks, prologue=_c14_prologue)])
+
+register("C18", "exploration",
+         SEQ_RULE + "; identifier alphabets come from an adversarial generator (unicode incl. combining / astral, path "
+         "separators, '..', leading dots and dashes, shell and glob metacharacters, 1000-9000 character ids, prefix / "
+         "suffix / case variants); two seam monitors run during every call: containment (every mutating call must "
+         "target a path inside the store root; anything else is refused and recorded) and access isolation (a "
+         "pid-reference file or metadata document, attributed to the identifier whose call created it, is never "
+         "touched by a call on another identifier, and no two identifiers map to one path); every created path "
+         "component must be hex / tmp name / *_delete; focus = a call on an identifier while another identifier "
+         "holds data",
+         COMMON_ASSUME + ["cids passed to tag_object are well-formed hex (C18 speaks of pid and format strings)",
+                          "lone surrogates are not generated (well-formed Unicode)"],
+         30, 420,
+         [SeqPart("C18", focus=["op:store", "op:smeta", "op:tag"], monitor=True)])
+
+register("C19", "exploration",
+         SEQ_RULE + "; at random points of a history the store directory is copied twice, fresh instances are opened, "
+         "and store_object(pid, data, checksum, algorithm, size) runs on one copy, store_object(data) -> "
+         "delete_if_invalid_object -> tag_object(pid, cid) on the other, with validation data correct / absent / wrong "
+         "checksum / wrong size / non-default algorithm; reports and alpha(directory) of the two copies are compared; "
+         "focus = a convergence step",
+         COMMON_ASSUME + ["when the validation data is wrong the two copies may differ in unreferenced objects (the statement allows it)"],
+         30, 420,
+         [SeqPart("C19", focus=["converge"], hooks=_c19_hooks)])
